@@ -42,14 +42,15 @@ Shapes == {<<3>>, <<2, 2>>, <<1, 3>>}
 Size(s) == IF Len(s) = 1 THEN s[1] ELSE s[1] * s[2]
 GridsOf(s, kind, vals) == {<<s, kind, c>> : c \in [1..Size(s) -> vals \cup {MV}]}
 \* no value has a fractional part of exactly 1/2 (how ties are rounded is not stated)
-ReadGrids == UNION {GridsOf(s, "f", {Q(-12, 5), Q(-2, 5), Q(3, 5), Q(101, 100), Q(13, 5)}) : s \in {<<3>>, <<1, 3>>}}
+\* (200001/200 = 1000.005 lies within 1e-5 (relative) of the missing value 1000 used below: only cells EQUAL to MissingValue are masked)
+ReadGrids == UNION {GridsOf(s, "f", {Q(-12, 5), Q(-2, 5), Q(3, 5), Q(101, 100), Q(13, 5)} \cup (IF s = <<3>> THEN {Q(200001, 200)} ELSE {})) : s \in {<<3>>, <<1, 3>>}}
              \cup GridsOf(<<2, 2>>, "f", {Q(-101, 100), R(0), R(1), Q(7, 5)}) \cup GridsOf(<<3>>, "i", IntVals)
 DTs == {"", "Float", "Integer", "Positive Float", "Positive Integer", "Fuzzy"}
 VARIABLES grids, mv, dt, out, done
 vars == <<grids, mv, dt, out, done>>
 Init == /\ IF Mode = "read"
            THEN /\ \E g \in ReadGrids : grids = <<g>>
-                /\ dt \in DTs /\ mv \in {<<>>, <<Q(3, 5)>>, <<R(0)>>, <<R(1)>>}
+                /\ dt \in DTs /\ mv \in {<<>>, <<Q(3, 5)>>, <<R(0)>>, <<R(1)>>, <<R(1000)>>}
                 /\ (mv # <<>> => dt \in {"", "Float", "Integer"})              \* the order of missing-value masking and type checks is not documented
                 /\ (mv # <<>> /\ dt = "Integer" => Kind(grids[1]) = "i" /\ IsInt(mv[1]))   \* nor whether the comparison is made before or after rounding
            ELSE /\ \E s \in Shapes, k1 \in {"f", "i"}, k2 \in {"f", "i"} :
